@@ -332,7 +332,7 @@ def fillN (g : Graph) (n : Nat) : List Ev :=
 
 theorem mkDef_id (fl : Flags) (lib : List Cls) (sg : SGraph) (n : Nat) : (mkDef fl lib sg n).id = n := rfl
 
-theorem optList_getD (l : List Nat) : (optList l).getD [] = l := by
+private theorem optList_getD (l : List Nat) : (optList l).getD [] = l := by
   unfold optList
   cases l <;> simp
 
